@@ -293,6 +293,18 @@ pub(crate) fn run_scheduling_solver(
                         if !w.is_capable_to_run_rqv(blocker_rqv, now) {
                             continue;
                         }
+                        // A multi-node task can use this worker only together with enough other
+                        // workers of its group; if the group cannot host the task, keeping the
+                        // worker clear for it would only starve the lower priority tasks
+                        if blocker_rqv.is_multi_node()
+                            && !worker_groups
+                                .get(&w.configuration.group)
+                                .is_some_and(|group| {
+                                    group.is_capable_to_run(blocker_rqv, now, worker_map)
+                                })
+                        {
+                            continue;
+                        }
                         let gap = scheduler_cache.gap_cache.get_gap(
                             *blocker_rq_id,
                             batch.resource_rq_id,
